@@ -4,6 +4,7 @@ import (
 	"context"
 	"encoding/json"
 	"fmt"
+	"strings"
 	"time"
 
 	"nhooyr.io/websocket"
@@ -33,13 +34,18 @@ var c14IsoOffers = []string{
 	"x-webkit-deflate-frame",                        // not ours
 }
 
-func c14IsoOne(c *fw.Ctx, cs c14IsoCase) {
+func c14IsoOne(c *fw.Ctx, cs c14IsoCase) { c14IsoOneP(c, cs, "C14") }
+
+// c14IsoOneP reports under prop (C07 reads the same history as "compression state
+// shared with another live connection").
+func c14IsoOneP(c *fw.Ctx, cs c14IsoCase, prop string) {
+	pc := func(class string) string { return prop + strings.TrimPrefix(class, "C14") }
 	c.Eval()
 	c.AddTraces(1)
 	desc := fmt.Sprintf("server mode %s: connection A accepted with offer %q, then connection B with offer %q", cs.Mode, cs.First, cs.Second)
 	a := c14Accept([]string{cs.First}, cs.Mode, false)
 	if a.pan != "" {
-		c.Violate("C14/panic", desc+": "+a.pan, cs)
+		c.Violate(pc("C14/panic"), desc+": "+a.pan, cs)
 		return
 	}
 	if a.conn == nil {
@@ -56,7 +62,7 @@ func c14IsoOne(c *fw.Ctx, cs c14IsoCase) {
 	}
 	b := c14Accept([]string{cs.Second}, cs.Mode, false)
 	if b.pan != "" {
-		c.Violate("C14/panic", desc+": "+b.pan, cs)
+		c.Violate(pc("C14/panic"), desc+": "+b.pan, cs)
 		return
 	}
 	if b.conn != nil {
@@ -68,20 +74,20 @@ func c14IsoOne(c *fw.Ctx, cs c14IsoCase) {
 		after = fmt.Sprintf("%+v", *compA1)
 	}
 	if before != after {
-		c.Violate("C14/parameters-changed-by-another-handshake/server", fmt.Sprintf("%s: A's parameters were %s after its own handshake and are %s after B's handshake (A's response: %q)", desc, before, after, respA), cs)
+		c.Violate(pc("C14/parameters-changed-by-another-handshake/server"), fmt.Sprintf("%s: A's parameters were %s after its own handshake and are %s after B's handshake (A's response: %q)", desc, before, after, respA), cs)
 		return
 	}
 	ctx, cancel := context.WithTimeout(context.Background(), 5*time.Second)
 	defer cancel()
 	for _, f := range exchange(c, ctx, a.conn, a.rw.conn, "server", agreedA, "") {
-		c.Violate(f.class+"/after-another-handshake", desc+": exchange on A with the parameters of A's response "+fmt.Sprintf("%q", respA)+": "+f.detail, cs)
+		c.Violate(pc(f.class+"/after-another-handshake"), desc+": exchange on A with the parameters of A's response "+fmt.Sprintf("%q", respA)+": "+f.detail, cs)
 		return
 	}
 	if b.conn != nil {
 		respB := b.rw.hdr.Values("Sec-WebSocket-Extensions")
 		agreedB, _ := responseDeflate(respB)
 		for _, f := range exchange(c, ctx, b.conn, b.rw.conn, "server", agreedB, "") {
-			c.Violate(f.class+"/second-connection", desc+": exchange on B: "+f.detail, cs)
+			c.Violate(pc(f.class+"/second-connection"), desc+": exchange on B: "+f.detail, cs)
 			return
 		}
 	}
@@ -101,8 +107,14 @@ func c14IsoCases() []c14IsoCase {
 }
 
 func init() {
+	for _, prop := range []string{"C14", "C07"} {
+		c14IsoRegister(prop)
+	}
+}
+
+func c14IsoRegister(prop string) {
 	fw.Register(fw.Part{
-		Prop: "C14", Name: "isolation",
+		Prop: prop, Name: "isolation",
 		Units: func(tier string) []fw.Unit {
 			return fw.Shards("pairs", 4, func(c *fw.Ctx, shard, n int) {
 				if msg := pmdSelfCheck(); msg != "" {
@@ -112,7 +124,7 @@ func init() {
 				cases := c14IsoCases()
 				for i, cs := range cases {
 					if i%n == shard {
-						c14IsoOne(c, cs)
+						c14IsoOneP(c, cs, prop)
 					}
 				}
 				c.AddStates(int64(len(c14IsoOffers) * len(hsModes)))
@@ -129,7 +141,7 @@ func init() {
 				c.EngineError("bad replay data")
 				return
 			}
-			c14IsoOne(c, cs)
+			c14IsoOneP(c, cs, prop)
 		},
 	})
 }
